@@ -72,3 +72,16 @@ Theorem C09_listed_slot_prints_both_values_and_difference fsub i sp dp rs rd :
   ++ diff_records_from fsub (i + 1) rs rd.
 Proof. exact (diff_records_of_archive fsub i sp dp rs rd). Qed.
 Print Assumptions C09_listed_slot_prints_both_values_and_difference.
+
+(** ** the library's own comparison API (timeseries.go: TimeSeries.Equal, DiffPoints, Points.Equal,
+    Points.Diff; run against the code by the [tsapi] operation): "equal" and "nothing listed" agree *)
+Theorem C09_series_equal_iff_nothing_listed a b :
+  series_equal a b = true <->
+  eq_range_step a b = true /\ length (s_vals a) = length (s_vals b) /\ diff_points true a b = ([], []).
+Proof. exact (series_equal_iff_no_difference a b). Qed.
+Print Assumptions C09_series_equal_iff_nothing_listed.
+
+Theorem C09_points_equal_iff_nothing_listed p q :
+  points_equal p q = true <-> length p = length q /\ points_diff p q = ([], []).
+Proof. exact (points_equal_iff_no_difference p q). Qed.
+Print Assumptions C09_points_equal_iff_nothing_listed.
